@@ -423,3 +423,336 @@ Theorem unmarshal_p_complete be v t depth nf pre suf : wt v t = true -> encodabl
 Proof.
   intros Hwt He Hfd. apply unmarshal_p_complete_gen; [exact Hwt|exact He|exact Hfd|apply has_at_intro|apply fuel_ok_66].
 Qed.
+
+(** ** the typed decoder *)
+(** [ety_matches e v]: the Rust type the caller asks for has the shape of the value, and wherever
+    it says Variant-then-get::<T>() the variant on the wire holds exactly a T. *)
+Fixpoint ety_matches (e : ety) (v : val) {struct v} : bool :=
+  match v, e with
+  | VBase b _, EBase b' => base_eqb b b'
+  | VText b _, EBase b' => base_eqb b b'
+  | VArray t vs, EArray x => ty_eqb t (erase x) && forallb (ety_matches x) vs
+  | VStruct vs, EStruct es =>
+      (fix go (l : list val) (es : list ety) : bool :=
+         match l, es with
+         | [], [] => true
+         | y :: l', e' :: es' => ety_matches e' y && go l' es'
+         | _, _ => false
+         end) vs es
+  | VDict k vt kvs, EDict k' x =>
+      base_eqb k k' && ty_eqb vt (erase x) && forallb (fun kv => ety_matches x (snd kv)) kvs
+  | VVariant t y, EVar x => ty_eqb t (erase x) && ety_matches x y
+  | _, _ => false
+  end.
+
+Lemma tfields_cons one f r first c acc :
+  tfields one (f :: r) first c acc =
+  do c <- (if first then Ok c else u_align (ealign f) c);
+  do x <- one f c; tfields one r false (snd x) (fst x :: acc).
+Proof. reflexivity. Qed.
+Lemma tfields_nil one first c acc : tfields one [] first c acc = Ok (rev acc, c).
+Proof. reflexivity. Qed.
+
+Definition tc (be : bool) (v : val) : Prop :=
+  forall e buf off nf ud d vf, wt v (erase e) = true -> ety_matches e v = true ->
+    encodable be off d v = true -> ud <= d -> fds_below nf v = true ->
+    has_at buf off (spec_enc be off v) -> fuel_ok vf d ->
+    unmarshal_t vf be e (mkc buf off nf ud) = Ok (v, mkc buf (off + len (spec_enc be off v)) nf ud).
+
+(* an explicit alignment to the type's alignment, then the decoder (which aligns again: no-op) *)
+Lemma t_aligned be v : tc be v ->
+  forall e buf off nf ud d vf, wt v (erase e) = true -> ety_matches e v = true ->
+    encodable be off d v = true -> ud <= d -> fds_below nf v = true ->
+    has_at buf off (spec_enc be off v) -> fuel_ok vf d ->
+    u_align (ealign e) (mkc buf off nf ud) = Ok (mkc buf (off + padlen (ealign e) off) nf ud)
+    /\ unmarshal_t vf be e (mkc buf (off + padlen (ealign e) off) nf ud)
+       = Ok (v, mkc buf (off + len (spec_enc be off v)) nf ud).
+Proof.
+  intros Htc e buf off nf ud d vf Hwt Hm He Hud Hfd H Hf. unfold ealign.
+  rewrite (spec_enc_align be v _ off Hwt) in H |- *. set (p := padlen (align (erase e)) off) in *.
+  destruct (has_at_app _ _ _ _ H) as [H1 H2]. rewrite len_zeros in H2. split.
+  - exact (u_align_ok _ (mkc buf off nf ud) (align_pos _) H1).
+  - rewrite <- (encodable_align be v _ off d Hwt) in He. fold p in He.
+    rewrite (Htc e buf (off + p) nf ud d vf Hwt Hm He Hud Hfd H2 Hf). rewrite len_app, len_zeros, N.add_assoc. reflexivity.
+Qed.
+
+Lemma t_elems be vs x : Forall (tc be) vs -> Forall (fun y => wt y (erase x) = true) vs ->
+  forallb (ety_matches x) vs = true ->
+  forall vf buf off nf ud d lf acc, fuel_ok (S vf) d -> ud <= d ->
+    encodable_list be off d vs = true ->
+    forallb (fds_below nf) vs = true ->
+    has_at buf off (spec_enc_list be off vs) ->
+    off + len (spec_enc_list be off vs) = len buf ->
+    (N.to_nat (len buf - off) < lf)%nat ->
+    sub_loop (fun c => do c <- u_align (ealign x) c; unmarshal_t (S vf) be x c) lf (mkc buf off nf ud) acc
+    = Ok (rev acc ++ vs).
+Proof.
+  induction vs as [|y r IH]; intros Htc Hwt Hm vf buf off nf ud d lf acc Hf Hud He Hfd H Hn Hlf.
+  - cbn [spec_enc_list] in Hn. rewrite len_nil in Hn. rewrite sub_loop_done; [now rewrite app_nil_r|].
+    unfold remainder_len. cbn [ubuf uoff]. lia.
+  - destruct lf as [|lf]; [lia|]. rewrite sub_loop_S.
+    apply Forall_cons_iff in Htc, Hwt. destruct Htc as [Hy Hr], Hwt as [Hwy Hwr].
+    cbn [spec_enc_list encodable_list forallb] in *. apply andb_prop in He, Hfd, Hm.
+    destruct He as [Hey Her], Hfd as [Hfy Hfr], Hm as [Hmy Hmr].
+    pose proof (spec_enc_nonempty be y _ _ _ Hwy Hey) as Hne.
+    set (ey := spec_enc be off y) in *.
+    destruct (has_at_app _ _ _ _ H) as [H1 H2]. rewrite len_app in Hn.
+    unfold remainder_len. cbn [ubuf uoff]. destruct (N.eqb_spec (len buf - off) 0) as [|_]; [lia|].
+    destruct (t_aligned be y Hy x buf off nf ud d (S vf) Hwy Hmy Hey Hud Hfy H1 Hf) as [E1 E2].
+    rewrite E1. cbn [bind]. rewrite E2. cbn [bind fst snd]. fold ey.
+    rewrite (IH Hr Hwr Hmr vf buf (off + len ey) nf ud d lf (y :: acc) Hf Hud Her Hfr H2); [|lia|lia].
+    cbn [rev]. now rewrite <- app_assoc.
+Qed.
+
+Lemma t_entries be kvs k x :
+  Forall (fun kv => tc be (fst kv) /\ tc be (snd kv)) kvs ->
+  Forall (fun kv => wt (fst kv) (TBase k) = true /\ wt (snd kv) (erase x) = true) kvs ->
+  forallb (fun kv => ety_matches x (snd kv)) kvs = true ->
+  forall vf buf off nf ud d lf acc, fuel_ok (S vf) d -> ud <= d ->
+    encodable_entries be off d kvs = true ->
+    forallb (fun kv => fds_below nf (fst kv) && fds_below nf (snd kv)) kvs = true ->
+    has_at buf off (spec_enc_entries be off kvs) ->
+    off + len (spec_enc_entries be off kvs) = len buf ->
+    (N.to_nat (len buf - off) < lf)%nat ->
+    sub_loop (fun c => do c <- u_align 8 c;
+                       do kr <- u_base be k c;
+                       do c2 <- u_align (ealign x) (snd kr);
+                       do vr <- unmarshal_t (S vf) be x c2;
+                       Ok ((fst kr, fst vr), snd vr)) lf (mkc buf off nf ud) acc = Ok (rev acc ++ kvs).
+Proof.
+  induction kvs as [|[a b] r IH]; intros Htc Hwt Hm vf buf off nf ud d lf acc Hf Hud He Hfd H Hn Hlf.
+  - cbn [spec_enc_entries] in Hn. rewrite len_nil in Hn. rewrite sub_loop_done; [now rewrite app_nil_r|].
+    unfold remainder_len. cbn [ubuf uoff]. lia.
+  - destruct lf as [|lf]; [lia|]. rewrite sub_loop_S.
+    apply Forall_cons_iff in Htc, Hwt. destruct Htc as [[_ Hb] Hr], Hwt as [[Hwa Hwb] Hwr]. cbn [fst snd] in *.
+    cbn [spec_enc_entries encodable_entries forallb] in *. cbv zeta in He. apply andb3 in He. destruct He as (Hea & Heb & Her).
+    cbn [fst snd] in Hfd, Hm. apply andb3 in Hfd. destruct Hfd as (Hfa & Hfb & Hfr).
+    apply andb_prop in Hm. destruct Hm as [Hmb Hmr].
+    unfold spec_enc_entry in *. cbn [fst snd] in *. cbv zeta in *. rewrite len_zeros in *.
+    set (p := padlen 8 off) in *.
+    pose proof (spec_enc_nonempty be a _ _ _ Hwa Hea) as Hne.
+    set (ea := spec_enc be (off + p) a) in *. set (eb := spec_enc be (off + p + len ea) b) in *.
+    rewrite <- !app_assoc in H. destruct (has_at_app4 _ _ _ _ _ _ H) as (H1 & H3 & H5 & H6).
+    lens.
+    unfold remainder_len. cbn [ubuf uoff]. destruct (N.eqb_spec (len buf - off) 0) as [|_]; [lia|].
+    rewrite (u_align_ok 8 (mkc buf off nf ud) ltac:(lia) H1). unfold set_off; cbn [bind ubuf uoff unfds udepth]. fold p.
+    rewrite (u_base_ok be k a d (mkc buf (off + p) nf ud) Hwa Hea Hfa H3).
+    unfold set_off; cbn [bind ubuf uoff unfds udepth fst snd]. fold ea.
+    destruct (t_aligned be b Hb x buf (off + p + len ea) nf ud d (S vf) Hwb Hmb Heb Hud Hfb H5 Hf) as [E1 E2].
+    rewrite E1. cbn [bind]. rewrite E2. cbn [bind fst snd]. fold eb.
+    rewrite (IH Hr Hwr Hmr vf buf (off + p + len ea + len eb) nf ud d lf ((a, b) :: acc) Hf Hud Her Hfr H6); [|lia|lia].
+    cbn [rev]. now rewrite <- app_assoc.
+Qed.
+
+Lemma t_fields be vs : Forall (tc be) vs ->
+  forall es, Forall2 (fun y e => wt y (erase e) = true /\ ety_matches e y = true) vs es ->
+  forall vf buf off nf ud d first acc, fuel_ok (S vf) d -> ud <= d ->
+    encodable_list be off d vs = true ->
+    forallb (fds_below nf) vs = true ->
+    has_at buf off (spec_enc_list be off vs) ->
+    tfields (unmarshal_t (S vf) be) es first (mkc buf off nf ud) acc
+    = Ok (rev acc ++ vs, mkc buf (off + len (spec_enc_list be off vs)) nf ud).
+Proof.
+  induction vs as [|y r IH]; intros Htc es Hwt vf buf off nf ud d first acc Hf Hud He Hfd H.
+  - inversion Hwt; subst. rewrite tfields_nil. cbn [spec_enc_list]. rewrite len_nil, N.add_0_r, app_nil_r. reflexivity.
+  - inversion Hwt as [|? e ? es' [Hwy Hmy] Hwr]; subst. apply Forall_cons_iff in Htc. destruct Htc as [Hy Hr].
+    rewrite tfields_cons. cbn [spec_enc_list encodable_list forallb] in *.
+    apply andb_prop in He, Hfd. destruct He as [Hey Her], Hfd as [Hfy Hfr].
+    set (ey := spec_enc be off y) in *.
+    destruct (has_at_app _ _ _ _ H) as [H1 H2].
+    assert (E : (do c <- (if first then Ok (mkc buf off nf ud) else u_align (ealign e) (mkc buf off nf ud));
+                 unmarshal_t (S vf) be e c) = Ok (y, mkc buf (off + len ey) nf ud)).
+    { destruct first.
+      - cbn [bind]. exact (Hy e buf off nf ud d (S vf) Hwy Hmy Hey Hud Hfy H1 Hf).
+      - destruct (t_aligned be y Hy e buf off nf ud d (S vf) Hwy Hmy Hey Hud Hfy H1 Hf) as [E1 E2].
+        rewrite E1. cbn [bind]. exact E2. }
+    destruct (if first then Ok (mkc buf off nf ud) else u_align (ealign e) (mkc buf off nf ud)) as [c'| | | |];
+      cbn [bind] in E |- *; try discriminate E.
+    rewrite E. cbn [bind fst snd].
+    rewrite (IH Hr es' Hwr vf buf (off + len ey) nf ud d false (y :: acc) Hf Hud Her Hfr H2).
+    cbn [rev]. rewrite <- app_assoc, len_app, N.add_assoc. reflexivity.
+Qed.
+
+Lemma struct_matches vs es : wt (VStruct vs) (TStruct (map erase es)) = true -> ety_matches (EStruct es) (VStruct vs) = true ->
+  Forall2 (fun y e => wt y (erase e) = true /\ ety_matches e y = true) vs es.
+Proof.
+  cbn [wt ety_matches]. revert es. induction vs as [|y r IH]; intros [|e es] Hw Hm; cbn [map] in *; try discriminate; [constructor|].
+  apply andb_prop in Hw, Hm. destruct Hw as [Hw1 Hw2], Hm as [Hm1 Hm2]. constructor; [auto|]. now apply IH.
+Qed.
+
+Lemma firstn_app_exact {A} (a b : list A) n : length a = n -> firstn n (a ++ b) = a.
+Proof. intros <-. rewrite firstn_app, firstn_all, Nat.sub_diag. cbn. apply app_nil_r. Qed.
+Lemma skipn_app_exact {A} (a b : list A) n : length a = n -> skipn n (a ++ b) = b.
+Proof. intros <-. rewrite skipn_app, skipn_all, Nat.sub_diag. reflexivity. Qed.
+
+(* the memcpy fast path: the raw bytes cut into chunks and read in native order are the elements *)
+Lemma chunks_ok be b vs : (be = false \/ b = BByte) -> is_text b = false ->
+  Forall (fun x => wt x (TBase b) = true) vs ->
+  forall pos fuel, pos mod base_align b = 0 -> (length vs < fuel)%nat ->
+    chunks b (base_size b) fuel (spec_enc_list be pos vs) = vs.
+Proof.
+  intros Hbe Ht. induction 1 as [|x r Hx _ IH]; intros pos fuel Hpos Hfu.
+  - cbn [spec_enc_list]. destruct fuel; reflexivity.
+  - destruct fuel as [|fuel]; [cbn in Hfu; lia|].
+    destruct (wt_base_inv _ _ Hx) as [(k & -> & _ & Hk)|(s & -> & Hts)]; [|congruence].
+    cbn [spec_enc_list spec_enc]. rewrite (padlen_0 _ _ (base_align_pos b) Hpos). cbn [zeros N.to_nat repeat app].
+    assert (Ee : enc be (base_size b) k = enc false (base_size b) k).
+    { destruct Hbe as [->| ->]; [reflexivity|]. destruct be; reflexivity. }
+    rewrite len_enc, (base_size_align b Ht).
+    set (rest := spec_enc_list be (pos + base_align b) r).
+    pose proof (base_size_pos b Ht) as Hsz. pose proof (length_enc be (base_size b) k) as Hl.
+    cbn [chunks]. destruct (enc be (base_size b) k ++ rest) as [|z zs] eqn:El.
+    { apply (f_equal (@length N)) in El. rewrite app_length, Hl in El. cbn in El. lia. }
+    rewrite <- El. rewrite (firstn_app_exact _ _ _ Hl), (skipn_app_exact _ _ _ Hl).
+    rewrite Ee, dec_enc by exact Hk. f_equal. subst rest. apply IH; [|cbn in Hfu; lia].
+    pose proof (base_align_pos b) as Hap. apply N.mod_divide in Hpos; [|lia]. destruct Hpos as [q ->].
+    replace (q * base_align b + base_align b) with ((q + 1) * base_align b) by lia. apply N.mod_mul. lia.
+Qed.
+
+Lemma u_read_u32_aligned be buf off nf ud n : n < 2 ^ 32 -> padlen 4 off = 0 -> has_at buf off (enc be 4 n) ->
+  u_read_fixed be 4 (mkc buf off nf ud) = Ok (n, mkc buf (off + 4) nf ud).
+Proof.
+  intros Hn Hp H. rewrite (u_read_u32_ok be (mkc buf off nf ud) n Hn).
+  - unfold set_off. cbn [ubuf uoff unfds udepth]. now rewrite Hp, N.add_0_r.
+  - cbn [ubuf uoff]. rewrite Hp. exact H.
+Qed.
+
+Theorem unmarshal_t_complete_gen be : forall v, tc be v.
+Proof.
+  induction v as [b k|b s|et vs IH|vs IH|kb vt kvs IH|vt y IH] using val_ind';
+    intros e buf off nf ud d vf Hwt Hm He Hud Hfd H Hf; (destruct vf as [|vf]; [destruct Hf; lia|]).
+  - destruct e as [b'|?|?|? ?|?]; try discriminate Hm. rewrite unmarshal_t_S_base.
+    now apply (u_base_ok be b' _ d (mkc buf off nf ud)).
+  - destruct e as [b'|?|?|? ?|?]; try discriminate Hm. rewrite unmarshal_t_S_base.
+    now apply (u_base_ok be b' _ d (mkc buf off nf ud)).
+  - (* array *)
+    destruct e as [?|x|?|? ?|?]; try discriminate Hm. cbn [ety_matches] in Hm. apply andb_prop in Hm. destruct Hm as [Het Hms].
+    apply ty_eqb_eq in Het. subst et. cbn [erase] in Hwt.
+    pose proof (wt_array_inv _ _ _ Hwt) as Hel. rewrite unmarshal_t_S_array.
+    rewrite encodable_array in He. apply andb4 in He. destruct He as (Hd & Hty & Hsz & Hes).
+    apply N.ltb_lt in Hd. apply N.leb_le in Hsz. cbn [fds_below] in Hfd.
+    rewrite spec_enc_array' in *.
+    set (p1 := padlen 4 off) in *. set (p2 := padlen (align (erase x)) (off + p1 + 4)) in *.
+    set (body := spec_enc_list be (off + p1 + 4 + p2) vs) in *.
+    assert (Hp1 : padlen 4 (off + p1) = 0) by (apply padlen_at_aligned; lia).
+    destruct (has_at_app4 _ _ _ _ _ _ H) as (H1 & H3 & H5 & H6). lens.
+    pose proof (has_at_bound _ _ _ H6) as Hb.
+    assert (H13 : has_at buf off (zeros p1 ++ enc be 4 (len body))).
+    { rewrite app_assoc in H. now apply has_at_app_l in H. }
+    destruct (valid_slice be (erase x)) eqn:Evs.
+    + (* memcpy fast path *)
+      unfold ealign.
+      destruct (valid_slice_inv _ _ Evs) as (b & Ex & Htx & Hnfd & Hsa & Hbe).
+      subst body p2. rewrite Ex in *. cbn [align] in *.
+      set (p2 := padlen (base_align b) (off + p1 + 4)) in *. set (body := spec_enc_list be (off + p1 + 4 + p2) vs) in *.
+      rewrite (u_read_u32_ok be (mkc buf off nf ud) (len body) (MAX_ARRAY_u32 _ Hsz) H13).
+      unfold set_off; cbn [bind ubuf uoff unfds udepth fst snd]. fold p1.
+      unfold check_array_len. destruct (N.ltb_spec MAX_ARRAY (len body)) as [|_]; [lia|]. cbn [bind].
+      rewrite (u_align_ok (base_align b) (mkc buf (off + p1 + 4) nf ud) (base_align_pos _) H5).
+      unfold set_off; cbn [bind ubuf uoff unfds udepth]. fold p2.
+      assert (Hal : (off + p1 + 4 + p2) mod base_align b = 0) by (apply padlen_aligned, base_align_pos).
+      assert (Elen : len body = base_align b * len vs) by (subst body; apply (fixed_list_len be b vs Htx Hel _ Hal)).
+      rewrite Elen at 1. rewrite N.mul_comm, N.mod_mul by (pose proof (base_align_pos b); lia).
+      cbn [N.eqb negb]. change (0 =? 0) with true. cbn [negb].
+      unfold remainder_len. cbn [ubuf uoff].
+      destruct (N.ltb_spec (len buf - (off + p1 + 4 + p2)) (len body)) as [|_]; [lia|].
+      rewrite (slice_has_at _ _ _ H6). subst body.
+      rewrite (chunks_ok be b vs Hbe Htx Hel _ _ Hal).
+      * reflexivity.
+      * rewrite Elen. pose proof (base_align_pos b). unfold len. nia.
+    + (* element loop *)
+      rewrite (u_align_ok 4 (mkc buf off nf ud) ltac:(lia) H1). unfold set_off; cbn [bind ubuf uoff unfds udepth]. fold p1.
+      rewrite (u_read_u32_aligned be buf (off + p1) nf ud (len body) (MAX_ARRAY_u32 _ Hsz) Hp1 H3). cbn [bind fst snd].
+      unfold check_array_len. destruct (N.ltb_spec MAX_ARRAY (len body)) as [|_]; [lia|]. cbn [bind].
+      rewrite (u_align_ok (ealign x) (mkc buf (off + p1 + 4) nf ud) (align_pos _) H5).
+      unfold set_off; cbn [bind ubuf uoff unfds udepth]. change (padlen (ealign x) (off + p1 + 4)) with p2.
+      rewrite (u_sub_ok (len body) (mkc buf (off + p1 + 4 + p2) nf ud)) by (cbn [ubuf uoff]; lia).
+      unfold set_off; cbn [bind ubuf uoff unfds udepth fst snd].
+      rewrite (t_elems be vs x IH Hel Hms vf (firstnN (off + p1 + 4 + p2 + len body) buf) (off + p1 + 4 + p2) nf ud (d + 1)
+                 (S (N.to_nat (len body))) []).
+      * cbn [bind fst snd rev app]. do 3 f_equal; rewrite ?len_app, ?len_zeros, ?len_enc4; lia.
+      * now apply fuel_ok_deeper.
+      * lia.
+      * exact Hes.
+      * exact Hfd.
+      * apply has_at_clip; [exact H6|]. fold body. lia.
+      * fold body. rewrite len_clip by lia. reflexivity.
+      * rewrite len_clip by lia. lia.
+  - (* struct *)
+    destruct e as [?|?|es|? ?|?]; try discriminate Hm. cbn [erase] in Hwt.
+    pose proof (struct_matches _ _ Hwt Hm) as Hel. rewrite unmarshal_t_S_struct.
+    rewrite encodable_struct in He. apply andb3 in He. destruct He as (Hd & Hne & Hes). apply N.ltb_lt in Hd.
+    cbn [fds_below] in Hfd.
+    rewrite spec_enc_struct in *. set (p := padlen 8 off) in *.
+    destruct (has_at_app _ _ _ _ H) as [H1 H2]. lens.
+    rewrite (u_align_ok 8 (mkc buf off nf ud) ltac:(lia) H1). unfold set_off; cbn [bind ubuf uoff unfds udepth]. fold p.
+    rewrite (t_fields be vs IH es Hel vf buf (off + p) nf ud (d + 1) true [] (fuel_ok_deeper _ _ Hf) ltac:(lia) Hes Hfd H2).
+    cbn [bind fst snd rev app]. reflexivity.
+  - (* dict *)
+    destruct e as [?|?|?|k' x|?]; try discriminate Hm. cbn [ety_matches] in Hm. apply andb3 in Hm. destruct Hm as (Hk & Het & Hms).
+    apply ty_eqb_eq in Het. subst vt. destruct (base_eqb_spec kb k') as [<-|]; [|discriminate]. cbn [erase] in Hwt.
+    pose proof (wt_dict_inv _ _ _ _ Hwt) as Hel. rewrite unmarshal_t_S_dict.
+    rewrite encodable_dict in He. apply andb4 in He. destruct He as (Hd & Hty & Hsz & Hes).
+    apply N.ltb_lt in Hd. apply N.leb_le in Hsz. cbn [fds_below] in Hfd.
+    rewrite spec_enc_dict' in *.
+    set (p1 := padlen 4 off) in *. set (p2 := padlen 8 (off + p1 + 4)) in *.
+    set (body := spec_enc_entries be (off + p1 + 4 + p2) kvs) in *.
+    assert (Hp1 : padlen 4 (off + p1) = 0) by (apply padlen_at_aligned; lia).
+    destruct (has_at_app4 _ _ _ _ _ _ H) as (H1 & H3 & H5 & H6). lens.
+    pose proof (has_at_bound _ _ _ H6) as Hb.
+    rewrite (u_align_ok 4 (mkc buf off nf ud) ltac:(lia) H1). unfold set_off; cbn [bind ubuf uoff unfds udepth]. fold p1.
+    rewrite (u_read_u32_aligned be buf (off + p1) nf ud (len body) (MAX_ARRAY_u32 _ Hsz) Hp1 H3). cbn [bind fst snd].
+    unfold check_array_len. destruct (N.ltb_spec MAX_ARRAY (len body)) as [|_]; [lia|]. cbn [bind].
+    rewrite (u_align_ok 8 (mkc buf (off + p1 + 4) nf ud) ltac:(lia) H5).
+    unfold set_off; cbn [bind ubuf uoff unfds udepth]. fold p2.
+    rewrite (u_sub_ok (len body) (mkc buf (off + p1 + 4 + p2) nf ud)) by (cbn [ubuf uoff]; lia).
+    unfold set_off; cbn [bind ubuf uoff unfds udepth fst snd].
+    rewrite (t_entries be kvs kb x IH Hel Hms vf (firstnN (off + p1 + 4 + p2 + len body) buf) (off + p1 + 4 + p2) nf ud (d + 1)
+               (S (N.to_nat (len body))) []).
+    + cbn [bind fst snd rev app]. do 3 f_equal; rewrite ?len_app, ?len_zeros, ?len_enc4; lia.
+    + now apply fuel_ok_deeper.
+    + lia.
+    + exact Hes.
+    + exact Hfd.
+    + apply has_at_clip; [exact H6|]. fold body. lia.
+    + fold body. rewrite len_clip by lia. reflexivity.
+    + rewrite len_clip by lia. lia.
+  - (* variant: read the signature, validate the content at the cursor's absolute offset, decode it in a sub-context *)
+    destruct e as [?|?|?|? ?|x]; try discriminate Hm. cbn [ety_matches] in Hm. apply andb_prop in Hm. destruct Hm as [Het Hmy].
+    apply ty_eqb_eq in Het. subst vt. cbn [erase] in Hwt. pose proof (wt_variant_inv _ _ _ Hwt) as Hwy.
+    rewrite unmarshal_t_S_var.
+    cbn [encodable] in He. apply andb3 in He. destruct He as (Hd & Hty & Hey). apply N.ltb_lt in Hd.
+    cbn [fds_below] in Hfd.
+    rewrite spec_enc_variant in *. rewrite len_sig_bytes in *.
+    set (pos := off + (len (to_str (erase x)) + 2)) in *.
+    rewrite (spec_enc_align be y _ pos Hwy) in H |- *. set (p := padlen (align (erase x)) pos) in *.
+    rewrite <- (encodable_align be y _ pos _ Hwy) in Hey. fold p in Hey.
+    set (ey := spec_enc be (pos + p) y) in *.
+    destruct (has_at_app3 _ _ _ _ _ H) as (H1 & H2 & H3). rewrite len_sig_bytes in H2, H3. rewrite len_zeros in H3.
+    fold pos in H2, H3. pose proof (has_at_bound _ _ _ H3) as Hb.
+    rewrite (u_read_sig_ok (mkc buf off nf ud) (to_str (erase x)) (utf8_valid_ascii _ (to_str_ascii _)) H1).
+    unfold set_off; cbn [bind ubuf uoff unfds udepth fst snd]. fold pos.
+    rewrite (parse_description_single _ Hty).
+    rewrite (u_align_ok (align (erase x)) (mkc buf pos nf ud) (align_pos _) H2).
+    unfold set_off; cbn [bind ubuf uoff unfds udepth]. fold p.
+    rewrite (u_enter_ok (mkc buf (pos + p) nf ud)) by (cbn [udepth]; lia). cbn [bind ubuf uoff unfds udepth].
+    rewrite (validate_complete_gen be y (erase x) (ud + 1) (pos + p) buf 66%nat Hwy
+               (encodable_mono be y _ (d + 1) (ud + 1) ltac:(lia) Hey) H3 (fuel_ok_66 _)). cbn [bind]. fold ey.
+    rewrite (u_sub_ok (len ey) (mkc buf (pos + p) nf ud)) by (cbn [ubuf uoff]; lia).
+    unfold set_off; cbn [bind ubuf uoff unfds udepth fst snd].
+    rewrite ty_eqb_refl.
+    rewrite (IH x (firstnN (pos + p + len ey) buf) (pos + p) nf ud (d + 1) vf Hwy Hmy Hey ltac:(lia) Hfd).
+    + cbn [bind fst snd]. fold ey. do 3 f_equal. rewrite !len_app, len_sig_bytes, len_zeros. subst pos. lia.
+    + apply has_at_clip; [exact H3|]. fold ey. lia.
+    + exact (fuel_ok_variant _ _ Hf Hd).
+Qed.
+
+Theorem unmarshal_t_complete be v e depth nf pre suf : wt v (erase e) = true -> ety_matches e v = true ->
+  encodable be (len pre) depth v = true -> fds_below nf v = true ->
+  unmarshal_t 66 be e {| ubuf := pre ++ spec_enc be (len pre) v ++ suf; uoff := len pre; unfds := nf; udepth := depth |}
+  = Ok (v, {| ubuf := pre ++ spec_enc be (len pre) v ++ suf; uoff := len pre + len (spec_enc be (len pre) v);
+              unfds := nf; udepth := depth |}).
+Proof.
+  intros Hwt Hm He Hfd.
+  apply (unmarshal_t_complete_gen be v e _ _ nf depth depth 66%nat Hwt Hm He (N.le_refl _) Hfd (has_at_intro _ _ _) (fuel_ok_66 _)).
+Qed.
